@@ -378,3 +378,37 @@ Proof.
     change (xml_read (Some """"%char)) with xml_read_attr. rewrite xml_attr_canonical_roundtrip by assumption.
     cbn. apply String.eqb_refl.
 Qed.
+
+(* ---------- why a CR broke signatures before F14 (digest_stable_iff) ---------- *)
+(* The signer digests the canonical serialisation of the in-memory text s; the
+   verifier digests the canonical serialisation of what it parsed, s'.  The
+   canonical serialisation is injective on strings of XML characters, so (for a
+   collision-free digest) the two digests agree iff the text survived transport. *)
+Theorem canonical_text_injective s s' :
+  valid_xml_chars s = true -> valid_xml_chars s' = true ->
+  (etree_escape EscCanonText s = etree_escape EscCanonText s' <-> s = s').
+Proof.
+  intros H H'. split; [|intros ->; reflexivity].
+  intro E. pose proof (xml_text_canonical_roundtrip s H) as R. rewrite E in R.
+  rewrite (xml_text_canonical_roundtrip s' H') in R. injection R as <-. reflexivity.
+Qed.
+
+Section Digest.
+Variable digest : string -> string.
+Hypothesis digest_injective : forall a b, digest a = digest b -> a = b.
+
+Theorem digest_stable_iff (m : escmode) s s' :
+  valid_xml_chars s = true -> valid_xml_chars s' = true ->
+  xml_read_text (etree_escape m s) = Some s' ->          (* what the verifier parsed from the writer's bytes *)
+  (digest (etree_escape EscCanonText s') = digest (etree_escape EscCanonText s) <-> s' = s).
+Proof.
+  intros H H' _. split.
+  - intro E. apply digest_injective in E. apply (canonical_text_injective s' s H' H). exact E.
+  - intros ->. reflexivity.
+Qed.
+End Digest.
+
+(* with default escaping "a CR b" is parsed as "a LF b": the digests differ *)
+Example digest_cr_example :
+  xml_read_text (etree_escape EscNormal (String "a" (String (chr 13) "b"))) = Some (String "a" (String (chr 10) "b")).
+Proof. vm_compute. reflexivity. Qed.
